@@ -108,7 +108,7 @@ def cluster_part(ctx, v, out):
         n += 1
         line = dict(line, id=n)
         impl_lines.append(line)
-        if line["op"] in ("cluster", "cstart", "cstop", "ccheck", "cstate", "cquery"):
+        if line["op"] in ("cluster", "cstart", "cstop", "ccheck", "cstate", "cquery", "creload"):
             # the model's nodes need the ids of the backends only (their objects come with the sync line)
             model_lines.append(dict(line, backends=[{"id": b["id"]} for b in line["backends"]]) if line["op"] == "cluster" else line)
         return n
@@ -174,7 +174,12 @@ def cluster_part(ctx, v, out):
         converge("start %s" % first)
         for ev in range(len(script) if script else rng.choice([1, 2, 3])):
             down = [i for i in range(k) if i not in running]
-            choice = script[ev] if script else rng.choice(["stop", "start", "replace", "restart"])
+            choice = script[ev] if script else rng.choice(["stop", "start", "replace", "restart", "reload"])
+            if choice == "reload":
+                j = rng.choice(sorted(running))
+                add({"op": "creload", "node": j})
+                converge("node %d reloads its configuration" % j)
+                continue
             if choice == "stop" and len(running) > 1:
                 j = rng.choice(sorted(running))
                 add({"op": "cstop", "node": j})
